@@ -43,7 +43,10 @@ func (m *MTProto) sendPacket(request tl.Object, expectedTypes ...reflect.Type) (
 	resp := m.getRespChannel()
 	if isNullableResponse(request) {
 		go func() { resp <- &objects.Null{} }() // goroutine cuz we don't read from it RIGHT NOW
-	} else {
+	} else if !m.serviceModeActivated {
+		// in service mode (key exchange) answers are handed over through serviceChannel by the reader itself,
+		// nobody looks them up by id. A registration left here would outlive the exchange, and a later server
+		// message naming that id would block the reader on a channel nobody receives from
 		m.responseChannels.Add(int(msgID), resp)
 	}
 
